@@ -55,6 +55,9 @@ func program(c Case) *progs.Prog {
 		return p
 	case "maponly":
 		return progs.MapOnly(c.MInit)
+	case "noinput":
+		// output = a map that is not executed at all on three blocks out of four (its only input is skipped there)
+		return progs.NoInput(c.MInit)
 	}
 	return progs.StoreMap(c.SInit, c.MInit)
 }
@@ -150,7 +153,7 @@ func Eval(c Case) (*core.Fail, bool) {
 	}
 	// gaps: every block from the hand-off on (and every block in development mode, and every block at all when the
 	// output is never empty) is delivered
-	neverEmpty := c.Prog != "sparse"
+	neverEmpty := c.Prog != "sparse" && c.Prog != "noinput"
 	from := c.Start
 	if c.Prod && !neverEmpty && H > from {
 		from = H
@@ -236,7 +239,36 @@ func evalCleanEnd(c Case, p *progs.Prog, chain sysrun.LinearChain, final uint64,
 			return core.Failf("delivered-before-the-error-is-not-a-prefix", "%s: delivered %s then %v; fault-free %s", desc, got, r.Err, want), true
 		}
 	}
+	// the failed request must not have left a file that claims more than was computed: the same request on the same
+	// cache, with a healthy block source, delivers the fault-free stream
+	chain.CleanEndAt, chain.CleanEndTier2 = 0, false
+	again := sysrun.Run(sysrun.Config{Modules: p.Modules, Output: p.Output, Prod: c.Prod, Seg: c.Seg, Start: int64(c.Start), Stop: c.Stop, Final: final, Dir: dir, Source: chain, Timeout: 10 * time.Second})
+	if again.Err != nil {
+		return core.Failf("request-after-early-end-fails", "%s; the same request afterwards on the same cache: %v", desc, again.Err), true
+	}
+	if g := rowsWithPayload(filterEmptyBelowAll(again.Data)); g != rowsWithPayload(filterEmptyBelowAll(ref.Data)) {
+		return core.Failf("cache-corrupted-by-early-end", "%s; the same request afterwards on the same cache delivers\n    %s\n  the fault-free request delivers\n    %s", desc, g, rowsWithPayload(filterEmptyBelowAll(ref.Data))), true
+	}
 	return nil, true
+}
+
+// filterEmptyBelowAll drops empty-payload messages (a request served from a warm cache may omit them below its hand-off).
+func filterEmptyBelowAll(ds []sysrun.DataMsg) []sysrun.DataMsg {
+	var out []sysrun.DataMsg
+	for _, d := range ds {
+		if d.Payload != "" {
+			out = append(out, d)
+		}
+	}
+	return out
+}
+
+func rowsWithPayload(ds []sysrun.DataMsg) string {
+	var s []string
+	for _, d := range ds {
+		s = append(s, fmt.Sprintf("%d=%q", d.Num, d.Payload))
+	}
+	return strings.Join(s, ",")
 }
 
 // evalSinkPanic: the response sink panics on one block. The request must return an error, and what was delivered is the
@@ -315,7 +347,7 @@ func Run(ctx *core.Ctx) int {
 	st := core.ParallelEnum(ctx, func(emit func(Case) bool) {
 		for _, seg := range segs {
 			inits := uniq([]uint64{1, seg - 1, seg, seg + 2})
-			for _, prog := range []string{"storemap", "sparse", "maponly"} {
+			for _, prog := range []string{"storemap", "sparse", "maponly", "noinput"} {
 				for _, prod := range []bool{false, true} {
 					for _, mi := range inits {
 						sinits := []uint64{mi}
@@ -384,7 +416,7 @@ func Run(ctx *core.Ctx) int {
 	ctx.Cov["base_runs"] = baseRuns
 	ctx.Cov["resumption_runs"] = resumptions
 	ctx.Cov["tier2_jobs_executed"] = jobs
-	ctx.Cov["rule"] = fmt.Sprintf("whole-system requests (real tier1 + in-process tier2, scripted modules): mode x segment size %v x module initial blocks {1,seg-1,seg,seg+2} x start {init-1,init,init+1,seg,seg+1,2seg,2seg+1} x stop {start+1,start+seg,start+2seg+1} x final block {unknown, below start, inside, above stop} on three programs (store->map with a never-empty output, a graph whose output is empty on most blocks, a map-only graph); blocks above the final block arrive as new, the others as new+irreversible. For every run and every delivered message whose cursor is on a final block, a second request with that cursor on the same cache. Non-trivial: the request crosses the hand-off or has empty-output blocks in its linear part. An evaluation is one base run with all its resumptions.", segs)
+	ctx.Cov["rule"] = fmt.Sprintf("whole-system requests (real tier1 + in-process tier2, scripted modules): mode x segment size %v x module initial blocks {1,seg-1,seg,seg+2} x start {init-1,init,init+1,seg,seg+1,2seg,2seg+1} x stop {start+1,start+seg,start+2seg+1} x final block {unknown, below start, inside, above stop} on four programs (store->map with a never-empty output, a graph whose output is empty on most blocks, a map-only graph, a map that is not executed on most blocks because its only input is skipped); blocks above the final block arrive as new, the others as new+irreversible. For every run and every delivered message whose cursor is on a final block, a second request with that cursor on the same cache. Non-trivial: the request crosses the hand-off or has empty-output blocks in its linear part. An evaluation is one base run with all its resumptions.", segs)
 	ctx.Assume = []string{
 		"fork-free chain; goroutine timing inside a request is not controlled (E2's dimension)",
 		"a resumed stream is compared with the original suffix modulo empty-payload messages below the hand-off in production mode (C01 allows back-filling to omit them)",
